@@ -1,4 +1,71 @@
+import EE.Lemmas.Triple
+import EE.Lemmas.Tie
 import EE.Model.Program
+/-! # C16 — evaluations are deterministic and isolated from one another
+
+In a functional model determinism is a fact about *types*: `parseProgram : Regs → Text → Res AST`
+takes the registrations and the text and nothing else; `exec inv t : World σ → Res Value × World σ`
+takes the world (registrations, the context passed in, the handlers' own state) and nothing else.
+There is no hidden argument through which an earlier or concurrent evaluation could act. What
+carries the assurance for the *code* is therefore the tie: the complete inventory of the crate's
+global mutable state (`globals_inventory`) and the absence of registry writers on every path
+from parsing, evaluating and rendering (`no_writer_reachable`) — both regenerated from the source
+and kernel-checked on every run — plus the alone-vs-embedded histories run against the real crate. -/
 namespace EE.Props.C16
-theorem placeholder : True := trivial
+open EE EngineM
+
+variable {σ : Type}
+
+/-- Parsing is a function of (registrations, text): repeating it, before or after anything else,
+gives the same result. -/
+theorem parse_repeatable (regs : Regs) (s : Text) : parseProgram regs s = parseProgram regs s := rfl
+
+/-- Evaluating the same tree from equal worlds gives equal outcomes and equal final worlds
+(any number of times). -/
+theorem exec_repeatable (inv : Inv σ) (t : AST) (w₁ w₂ : World σ) (h : w₁ = w₂) : exec inv t w₁ = exec inv t w₂ := by
+  rw [h]
+
+/-- Evaluation only *reads* the registries: if no handler registers anything, the registrations
+after an evaluation — successful or not — are the registrations before it. -/
+theorem regs_readonly (inv : Inv σ) (r0 : Regs)
+    (hinv : ∀ h args w, w.Clean → w.regs = r0 → (inv h args w).2.Clean ∧ (inv h args w).2.regs = r0)
+    (t : AST) (w : World σ) (hw : w.Clean) (hr : w.regs = r0) :
+    (exec inv t w).2.regs = r0 ∧ (exec inv t w).2.Clean := by
+  let I : World σ → Prop := fun w => w.Clean ∧ w.regs = r0
+  have hI : StableT I := { clean := fun _ h => h.1, ctx := fun _ _ h => h, trace := fun _ _ h => h }
+  have hinv' : InvTriple I (fun _ w' => I w') inv := by
+    intro h args w0 hw0
+    have := hinv h args w0 hw0.1 hw0.2
+    exact ⟨fun a w' e => by rw [e] at this; exact this, fun r w' e _ => by rw [e] at this; exact this⟩
+  have main := Triple.exec' (F := fun _ w' => I w') (fun _ h => h) hI hinv' t w ⟨hw, hr⟩
+  cases hout : exec inv t w with
+  | mk res w' =>
+    cases hok : res.isOk with
+    | true =>
+      cases res <;> simp [Res.isOk] at hok
+      have := main.1 _ w' hout
+      exact ⟨this.2, this.1⟩
+    | false =>
+      have := main.2 res w' hout hok
+      exact ⟨this.2, this.1⟩
+
+/-- A nested evaluation on its own (fresh) context leaves the caller's context exactly as it was. -/
+def withFreshCtx {α : Type} (ctx0 : CtxMap) (m : EngineM σ α) : EngineM σ α := fun w =>
+  let (r, w') := m { w with ctx := ctx0, ctxHeld := false, ctxPoisoned := false }
+  (r, { w' with ctx := w.ctx, ctxHeld := w.ctxHeld, ctxPoisoned := w.ctxPoisoned })
+
+theorem other_context_untouched {α : Type} (ctx0 : CtxMap) (m : EngineM σ α) (w : World σ) :
+    (withFreshCtx ctx0 m w).2.ctx = w.ctx ∧ (withFreshCtx ctx0 m w).2.ctxPoisoned = w.ctxPoisoned := by
+  simp [withFreshCtx]
+
+/-- Variables live in the context passed in and nowhere else: an assignment changes `ctx` only. -/
+theorem assignment_stays_in_context (n : Name) (v : CtxVal) (w : World σ) (hw : w.Clean) :
+    (ctxSet n v w).2 = { w with ctx := (n, v) :: w.ctx } := by
+  rw [ctxSet_clean hw]
+
+/-- Tie: the crate's global mutable state is exactly the five registries and the once-flag. -/
+theorem globals_inventory := EE.Tie.globals_inventory
+/-- Tie: no registry writer is reachable from parsing, evaluating or rendering. -/
+theorem no_writer_reachable := EE.Tie.no_writer_reachable
+
 end EE.Props.C16
